@@ -2,6 +2,9 @@
 Core numerical functions.
 """
 
+import math
+from fractions import Fraction
+
 from . import base as fp
 
 ###########################################################
@@ -71,7 +74,13 @@ def modf(x: fp.Float, ctx: fp.Context) -> tuple[fp.Float, fp.Float]:
     - if `x` is `+/-Inf`, the result is `(+/-0, +/-Inf)`
     - if `x` is NaN, the result is `(NaN, NaN)`
     """
-    if x.isnan:
+    if isinstance(x, Fraction):
+        # a rational no `Float` holds (an exact value under `REAL`)
+        whole = Fraction(math.trunc(x))
+        if ctx is fp.REAL:
+            return whole, x - whole
+        return ctx.round(whole, exact=True), ctx.round(x - whole, exact=True)
+    elif x.isnan:
         i = ctx.round(x, exact=True)
         f = ctx.round(x, exact=True)
         return i, f
